@@ -3,6 +3,7 @@
  * real filter functions of the implementation (objects rebuilt from the repository's working tree).
  *
  * usage: filter_conf CASES.ndjson [SHARD NSHARDS]
+ *        filter_conf --probe NOHIDDEN PATH [include|exclude PATTERN]...
  *
  * Input (written by TLC):
  *   one header line  {"names":[..],"patterns":[..],"small":[..],"paths":[..],"content":[..],"select":[..]}
@@ -483,6 +484,57 @@ static void setup(struct jv* hdr)
 	}
 }
 
+/*
+ * filter_conf --probe NOHIDDEN PATH [include|exclude PATTERN]...
+ * prints what the implementation answers for one path (used by the replay of a recorded mismatch)
+ */
+static int probe(int argc, char* argv[])
+{
+	tommy_list list;
+	struct snapraid_filter* reason = 0;
+	int h = atoi(argv[2]);
+	const char* sub = argv[3];
+	char prefix[PATH_MAX];
+	int i, reached = 1;
+	size_t k;
+
+	tommy_list_init(&list);
+	tommy_list_init(&contentlist);
+	for (i = 4; i + 1 < argc; i += 2) {
+		struct snapraid_filter* filter = filter_alloc_file(strcmp(argv[i], "include") == 0 ? 1 : -1, argv[i + 1]);
+		if (!filter) {
+			printf("{\"rejected_pattern\":\"%s\"}\n", argv[i + 1]);
+			return 0;
+		}
+		tommy_list_insert_tail(&list, &filter->node, filter);
+	}
+	/* the walk down to the entry, as scan_sub() */
+	for (k = 0; reached; ++k) {
+		if (sub[k] == '/' || sub[k] == 0) {
+			struct dirent dd;
+			const char* slash;
+			memcpy(prefix, sub, k);
+			prefix[k] = 0;
+			slash = strrchr(prefix, '/');
+			memset(&dd, 0, sizeof(dd));
+			snprintf(dd.d_name, sizeof(dd.d_name), "%s", slash ? slash + 1 : prefix);
+			if (filter_hidden(h, &dd) != 0)
+				reached = 0;
+			else if (sub[k] == '/' && filter_subdir(&list, &reason, DISKNAME, prefix) != 0)
+				reached = 0;
+			if (sub[k] == 0)
+				break;
+		}
+	}
+	printf("{\"file\":%s,\"dir\":%s,\"emptydir\":%s,\"walk_file\":%s,\"walk_dir\":%s}\n",
+		filter_path(&list, &reason, DISKNAME, sub) == 0 ? "true" : "false",
+		filter_subdir(&list, &reason, DISKNAME, sub) == 0 ? "true" : "false",
+		filter_emptydir(&list, &reason, DISKNAME, sub) == 0 ? "true" : "false",
+		reached && filter_path(&list, &reason, DISKNAME, sub) == 0 ? "true" : "false",
+		reached && filter_subdir(&list, &reason, DISKNAME, sub) == 0 ? "true" : "false");
+	return 0;
+}
+
 int main(int argc, char* argv[])
 {
 	FILE* f;
@@ -491,6 +543,9 @@ int main(int argc, char* argv[])
 	ssize_t len;
 	unsigned long shard = 0, nshards = 1, idx = 0;
 	int have_header = 0;
+
+	if (argc >= 4 && strcmp(argv[1], "--probe") == 0)
+		return probe(argc, argv);
 
 	if (argc != 2 && argc != 4) {
 		fprintf(stderr, "usage: filter_conf CASES.ndjson [SHARD NSHARDS]\n");
